@@ -316,12 +316,29 @@ def scenario_class(r, verdict, step):
         if window and all(full for full, _ in window):
             # how many of the open connections are parked keep-alive ones?  The worker's budget is wc - threads, so that
             # `threads` slots stay available to connections that may still send a request
-            kept = 0
-            for c in range(1, r["cfg"]["nconn"] + 1):
-                mine = [e for e in upto if e["c"] == c and e["e"] in ("jobend", "reg", "submit", "close", "cancel")]
-                if len(mine) >= 2 and mine[-1]["e"] == "reg" and mine[-2]["e"] == "jobend" and mine[-2]["x"] == "keep":
-                    kept += 1
-            over = ",keepalive-over-budget" if kept > max(0, wc - r["cfg"]["threads"]) else ""
+            budget = max(0, wc - r["cfg"]["threads"])
+
+            def parked_before(idx):
+                n = 0
+                for c in range(1, r["cfg"]["nconn"] + 1):
+                    mine = [e for e in upto[:idx] if e["c"] == c and e["e"] in ("jobend", "reg", "submit", "close", "cancel")]
+                    if len(mine) >= 2 and mine[-1]["e"] == "reg" and mine[-2]["e"] == "jobend" and mine[-2]["x"] == "keep":
+                        n += 1
+                return n
+            kept = parked_before(len(upto))
+            over = ""
+            if kept > budget:
+                # the handler decides on keep-alive from len(_keep) while it runs; a connection enters _keep only in the
+                # completion callback.  Did some handler keep its connection although the budget was visibly used up
+                # (impossible on this tree), or did concurrent handlers all decide before any of them was parked (a race
+                # this tree has)?
+                over = ",keepalive-budget-race"
+                for c in range(1, r["cfg"]["nconn"] + 1):
+                    ends = [i for i, e in enumerate(upto) if e["c"] == c and e["e"] == "jobend" and e["x"] == "keep"]
+                    if ends and parked_before(ends[-1]) >= budget and budget > 0:
+                        over = ",keepalive-over-budget"
+                    if ends and budget == 0:
+                        over = ",keepalive-over-budget"
             return ("gate-full-pool-busy" if any(b for _, b in window) else "gate-full-pool-empty") + over
     if verdict == "ServedIfThreadFree":
         # was a readable event of the waiting connection consumed without a dispatch?
@@ -418,7 +435,7 @@ def judge(ctx, runs, name="GThreadTrace_C13"):
         cls = scenario_class(r, v, step)
         sig = "C13/%s/%s" % (v, cls)
         bad[sig] += 1
-        if cls.startswith("gate-full") and "over-budget" not in cls:
+        if cls.startswith("gate-full") and "budget" not in cls:
             # one root cause (the capacity gate stops all polling), three bounded-response symptoms
             # (request not served / departure not noticed / count stuck) x pool empty or busy:
             # one signature; the observed variants are counted in the evidence
